@@ -100,7 +100,16 @@ class Report:
             path = os.path.join(rdir, "%s-%d.json" % (self.pid, i))
             with open(path, "w") as fh:
                 json.dump({"property": self.pid, "key": v["key"], "text": v["text"], "detail": v["detail"]}, fh, indent=1, default=str)
-            lines.append("VIOLATION property=%s replay=%s key=%s :: %s" % (self.pid, path, v["key"], v["text"]))
+            note = ""
+            try:
+                from . import mir
+
+                hit = ["%s is %s in this tree" % (c, a) for c, a in mir.RENAMED.items() if c in v["text"] or c in v["key"]]
+                if hit:
+                    note = " [" + "; ".join(hit[:3]) + "]"
+            except Exception:  # pragma: no cover
+                pass
+            lines.append("VIOLATION property=%s replay=%s key=%s :: %s%s" % (self.pid, path, v["key"], v["text"], note))
         n_ob = len(self.obligations)
         n_ok = sum(1 for o in self.obligations if o["ok"])
         distinct = len({(o["rule"], o["instance"]) for o in self.obligations})
@@ -120,6 +129,10 @@ class Report:
             "trusted_base": ["rustc MIR construction and callee resolution", "pv model table of std items (pv/models.py)"],
             "checker_cmd": "./check %s --tier %s" % (self.pid, self.tier),
         }
+        from . import mir
+
+        if mir.RENAMED:
+            cov["helpers_located_by_role"] = {"note": "these private helpers are not at the path the rules name; each was located by its role (pv/roles.py) and is reported under the canonical path", "canonical_to_actual": dict(mir.RENAMED)}
         cov.update(self.extra)
         ev = {
             "property_id": self.pid,
